@@ -20,7 +20,7 @@ G('da.__yd_add_d', 'date-core', '__yd_add_d', ARITH, call='__yd_add_d(d, in_n)',
 G('da.__yd_add_w', 'date-core', '__yd_add_w', ARITH, call='__yd_add_w(d, in_n)', ret='dt_yd_t', replace=['__yd_add_d'], solvers=SV, **YD_IN)
 
 MINV = ('S_JAN00((int)y) + S_CUML((int)y, m) + d == S_JAN00((int)__CPROVER_loop_entry(y)) + S_CUML((int)__CPROVER_loop_entry(y), __CPROVER_loop_entry(m)) + __CPROVER_loop_entry(d)')
-G('da.__ymd_fixup_d', 'date-core', '__ymd_fixup_d', ARITH, ins=[(U, 'in_y'), ('int', 'in_m'), ('int', 'in_d')], call='__ymd_fixup_d(in_y, in_m, in_d)', ret='dt_ymd_t',
+GS('da.__ymd_fixup_d', 'date-core', '__ymd_fixup_d', ARITH, [('bwd', 'in_d < 1'), ('mid', 'in_d >= 1 && in_d <= 28'), ('fwd', 'in_d > 28')], ins=[(U, 'in_y'), ('int', 'in_m'), ('int', 'in_d')], call='__ymd_fixup_d(in_y, in_m, in_d)', ret='dt_ymd_t',
   replace=['__get_mdays'], solvers=SV, timeout=900,
   loopinv={'__ymd_fixup_d': [
       dict(id=0, inv='y >= 1601 && y <= 4095 && m >= 1 && m <= 12 && d < 1 && d >= -1000000 && ' + MINV + ' && S_JAN00((int)y) + S_CUML((int)y, m) + d >= 1', dec='12 * (int)y + m'),
@@ -34,7 +34,7 @@ G('da.__daisy_add_d', 'date-core', '__daisy_add_d', ARITH, ins=[('dt_daisy_t', '
 G('da.__daisy_add_w', 'date-core', '__daisy_add_w', ARITH, ins=[('dt_daisy_t', 'in_d'), ('int', 'in_n')], call='__daisy_add_w(in_d, in_n)', ret='dt_daisy_t', replace=['__daisy_add_d'])
 
 WINV = ('S_ISOMON1((int)y) + 7 * (w - 1) == S_ISOMON1((int)__CPROVER_loop_entry(y)) + 7 * (__CPROVER_loop_entry(w) - 1) && hang == S_HANG((int)y)')
-G('da.__ywd_fixup_w', 'date-core', '__ywd_fixup_w', ARITH, ins=[(U, 'in_y'), ('int', 'in_w'), (U, 'in_d'), ('int', 'in_hang')],
+GS('da.__ywd_fixup_w', 'date-core', '__ywd_fixup_w', ARITH, [('bwd', 'in_w < 1'), ('mid', 'in_w >= 1 && in_w <= 52'), ('fwd', 'in_w > 52')], ins=[(U, 'in_y'), ('int', 'in_w'), (U, 'in_d'), ('int', 'in_hang')],
   call='__ywd_fixup_w(in_y, in_w, (dt_dow_t)in_d, in_hang)', ret='dt_ywd_t', replace=['__get_isowk', '__leapp'], solvers=SV, timeout=900,
   loopinv={'__ywd_fixup_w': [
       dict(id=0, inv='y >= 1602 && y <= 4096 && w < 1 && w >= -150000 && ' + WINV + ' && S_ISOMON1((int)y) + 7 * (w - 1) >= -5', dec='y'),
@@ -42,3 +42,18 @@ G('da.__ywd_fixup_w', 'date-core', '__ywd_fixup_w', ARITH, ins=[(U, 'in_y'), ('i
   sweep={'in_y': '1598 + RND % 2500', 'in_w': '(int)(RND % 6000) - 3000', 'in_d': 'RND % 9', 'in_hang': '(int)(RND % 9) - 4'})
 G('da.__ywd_add_w', 'date-core', '__ywd_add_w', ARITH, call='__ywd_add_w(d, in_n)', ret='dt_ywd_t', replace=['__ywd_fixup_w'], solvers=SV, **YWD_IN)
 G('da.__ywd_add_d', 'date-core', '__ywd_add_d', ARITH, call='__ywd_add_d(d, in_n)', ret='dt_ywd_t', replace=['__ywd_add_w'], solvers=SV, **YWD_IN)
+
+DN_IN = dict(ins=[(U, 'in_typ'), ('uint32_t', 'in_u'), ('int', 'in_n')], setup='struct dt_d_s d = {DT_DUNK}; d.typ = (dt_dtyp_t)in_typ; d.u = in_u;')
+ATYPS = ('DT_YMD', 'DT_YD', 'DT_YWD', 'DT_DAISY', 'DT_LDN', 'DT_MDN')
+UNR = lambda *fs: ['%s/UNREACH_%s' % (f, f) for f in fs]
+for t in ATYPS:
+    G('da.dt_dadd_d.' + t[3:], 'date-core', 'dt_dadd_d', ARITH, fix={'in_typ': t}, call='dt_dadd_d(d, in_n)', ret='struct dt_d_s',
+      replace=['__ymd_add_d', '__yd_add_d', '__ywd_add_d', '__daisy_add_d', '__daisy_to_ldn', '__daisy_to_mdn', '__ldn_to_daisy', '__mdn_to_daisy']
+      + UNR('__jdn_to_daisy', '__daisy_to_jdn', '__ymcw_add_d', '__bizda_add_d'), solvers=SV, sweep={'in_n': '(int)(RND % 40000) - 20000'}, **DN_IN)
+    G('da.dt_dadd_w.' + t[3:], 'date-core', 'dt_dadd_w', ARITH, fix={'in_typ': t}, call='dt_dadd_w(d, in_n)', ret='struct dt_d_s',
+      replace=['__ymd_add_w', '__yd_add_w', '__ywd_add_w', '__daisy_add_w', '__daisy_to_ldn', '__daisy_to_mdn', '__ldn_to_daisy', '__mdn_to_daisy']
+      + UNR('__jdn_to_daisy', '__daisy_to_jdn', '__ymcw_add_w', '__bizda_add_w'), solvers=SV, sweep={'in_n': '(int)(RND % 4000) - 2000'}, **DN_IN)
+G('da.dt_dadd', 'date-core', 'dt_dadd', ARITH, ins=[(U, 'in_typ'), ('uint32_t', 'in_u'), (U, 'in_dt'), ('int', 'in_n')],
+  setup='struct dt_d_s d = {DT_DUNK}; d.typ = (dt_dtyp_t)in_typ; d.u = in_u; struct dt_ddur_s dur = {DT_DURUNK}; dur.durtyp = (dt_durtyp_t)in_dt; dur.dv = in_n;',
+  call='dt_dadd(d, dur)', ret='struct dt_d_s', replace=['dt_dadd_d', 'dt_dadd_w'] + UNR('dt_dadd_b', 'dt_dadd_m', 'dt_dadd_y'), solvers=SV,
+  sweep={'in_typ': 'RND % 12', 'in_dt': '6 + 2 * (RND % 2)', 'in_n': '(int)(RND % 4000) - 2000'})
